@@ -58,6 +58,14 @@ func init() {
 		}}
 }
 
+func init() {
+	props["DBG"] = propRun{rule: "debug", run: func(c *Ctx) {
+		p := defaultProfile
+		p.WithModel = true
+		runParseCases(c, budget(c.Tier, 400, 20000), p, nil)
+	}}
+}
+
 func main() {
 	prop := flag.String("prop", "", "property id")
 	tier := flag.String("tier", "quick", "quick|thorough")
